@@ -21,6 +21,7 @@ use super::{BasePath, ChangeExt};
 pub trait ActionContext {
     fn key_of(&self, node_id: NodeId) -> Key;
     fn collect(&self, key: &Key) -> Tree;
+    fn has_key(&self, key: &Key) -> bool;
     fn squash(&self, key: &Key, depth: u8) -> Tree;
     fn random_key(&self, parent: &str) -> Key;
     fn markdown_options(&self) -> &MarkdownOptions;
@@ -524,6 +525,21 @@ impl ActionProvider for ListToSections {
     }
 }
 
+/// The note that the reference `target_id` in `tree` (the note `key`) can be inlined from. There
+/// is none when the reference points at a note that does not exist, or at the note it stands in:
+/// inlining deletes the referenced note, which must not be the note being edited.
+fn inlinable_reference_key(
+    tree: &Tree,
+    key: &Key,
+    target_id: NodeId,
+    context: &impl ActionContext,
+) -> Option<Key> {
+    tree.find(target_id)
+        .filter(|node| node.is_reference())
+        .map(|_| tree.reference_key(target_id))
+        .filter(|inline_key| inline_key != key && context.has_key(inline_key))
+}
+
 pub struct ReferenceInlineSection {}
 impl ActionProvider for ReferenceInlineSection {
     fn identifier(&self) -> String {
@@ -533,8 +549,8 @@ impl ActionProvider for ReferenceInlineSection {
     fn action(&self, target_id: NodeId, context: impl ActionContext) -> Option<Action> {
         let key = context.key_of(target_id);
         let tree = context.collect(&key);
-        Some(target_id)
-            .filter(|target_id| tree.get(*target_id).is_reference())
+        inlinable_reference_key(&tree, &key, target_id, &context)
+            .filter(|_| tree.get_surrounding_section_id(target_id).is_some())
             .map(|_| Action {
                 title: "Inline section".to_string(),
                 identifier: self.identifier(),
@@ -545,11 +561,8 @@ impl ActionProvider for ReferenceInlineSection {
     fn changes(&self, target_id: NodeId, context: impl ActionContext) -> Option<Changes> {
         let key = context.key_of(target_id);
         let tree = context.collect(&key);
-        Some(target_id)
-            .filter(|target_id| tree.get(*target_id).is_reference())
-            .and_then(|target_id| {
-                let inline_key = context.collect(&key).reference_key(target_id);
-
+        inlinable_reference_key(&tree, &key, target_id, &context)
+            .and_then(|inline_key| {
                 context
                     .collect(&key)
                     .get_surrounding_section_id(target_id)
@@ -584,8 +597,7 @@ impl ActionProvider for ReferenceInlineQuote {
     fn action(&self, target_id: NodeId, context: impl ActionContext) -> Option<Action> {
         let key = context.key_of(target_id);
         let tree = context.collect(&key);
-        Some(target_id)
-            .filter(|target_id| tree.get(*target_id).is_reference())
+        inlinable_reference_key(&tree, &key, target_id, &context)
             .map(|_| Action {
                 title: "Inline quote".to_string(),
                 identifier: self.identifier(),
@@ -597,10 +609,9 @@ impl ActionProvider for ReferenceInlineQuote {
         let key = context.key_of(target_id);
         let tree = context.collect(&key);
 
-        Some(target_id)
-            .filter(|target_id| tree.get(*target_id).is_reference())
-            .map(|reference_id| {
-                let inline_key = context.collect(&key).reference_key(reference_id);
+        inlinable_reference_key(&tree, &key, target_id, &context)
+            .map(|inline_key| {
+                let reference_id = target_id;
 
                 let quote = Tree {
                     id: None,
@@ -733,12 +744,7 @@ impl ActionProvider for ReferenceInlineList {
         let key = context.key_of(target_id);
         let tree = context.collect(&key);
 
-        Some(target_id)
-            .filter(|node_id| {
-                tree.find(*node_id)
-                    .map(|n| n.is_reference())
-                    .unwrap_or(false)
-            })
+        inlinable_reference_key(&tree, &key, target_id, &context)
             .map(|_| Action {
                 title: "Inline list".to_string(),
                 identifier: self.identifier(),
@@ -750,14 +756,9 @@ impl ActionProvider for ReferenceInlineList {
         let key = context.key_of(target_id);
         let tree = context.collect(&key);
 
-        Some(target_id)
-            .filter(|node_id| {
-                tree.find(*node_id)
-                    .map(|n| n.is_reference())
-                    .unwrap_or(false)
-            })
-            .map(|reference_id| {
-                let inline_key = context.collect(&key).reference_key(reference_id);
+        inlinable_reference_key(&tree, &key, target_id, &context)
+            .map(|inline_key| {
+                let reference_id = target_id;
 
                 let markdown = context
                     .collect(&key)
